@@ -803,7 +803,7 @@ def check_arith(ctx: Ctx):
     Position, PositionDelta, PosVel, PosVelDelta, PositionArray, PosVelArray, ellipsoid, T = _imp()
     drv, rng = ctx.driver, ctx.rng
     names = list(ellipsoid._ELLIPSOIDS)
-    n = ctx.budget(500, 20000)
+    n = ctx.budget(500, 8000)
     # boundary set first: every form x every (position ellipsoid, reference ellipsoid) pair on Position objects, one shape
     todo = [("position", form, e1, e2, e2, "nxk", True) for form in ARITH_FORMS for e1 in names for e2 in names]
     for _ in range(n):
